@@ -25,7 +25,7 @@ PROPERTY = "C13"
 LEVEL = "exploration"
 MANIFEST = {
     "technique": "deviation-bounded exhaustive enumeration of the configuration space (all configurations within <= d axis deviations of the default, d iterated) x every tower x every time index; differential oracle (hand-written low-level pipeline)",
-    "text": "Every configuration that differs from the default in at most two (thorough: three) of 17 axes is parsed and run for every tower and time index through run_bldfm_single and through the documented low-level pipeline written out by hand; the two must agree bit for bit and label for label. Dropped or swapped arguments (halo, modes, analytic, precision, levels, tower coordinates, time index, z0/ustar precedence) cannot hide because each axis has a non-default value that changes the result.",
+    "text": "Every configuration that differs from the default in at most two (thorough: three) of 19 axes is parsed and run for every tower and time index through run_bldfm_single and through the documented low-level pipeline written out by hand; the two must agree bit for bit and label for label. Dropped or swapped arguments (halo, modes, analytic, precision, levels, tower coordinates, time index, z0/ustar precedence) cannot hide because each axis has a non-default value that changes the result.",
     "note": "Bound: deviation depth d (2 quick / 3 thorough), reported. The oracle pipeline uses the library's own low-level functions (that is the property: high level == low level), so errors inside those functions are other properties' business.",
 }
 
@@ -53,6 +53,8 @@ AXES = {
     "towers": [("towers", None, TWO)],
     "origin": [("domain", "__no_origin", None)],
     "integers": [("__ints", None, True)],
+    "met-defaults": [("met", "__omit", ["mol", "wind_speed", "wind_dir"]), ("met", "__omit", ["mol"]), ("met", "__omit", ["wind_dir"])],
+    "square-grid": [("domain", "__square", 6)],
     "source": [("solver", "surface_flux_shape", "circle"), ("solver", "surface_flux_shape", "point"), ("solver", "src_loc", [30.0, 20.0]), ("solver", "src_loc", [0.0, 0.0]), ("__user_flux", None, True)],
 }
 
@@ -70,6 +72,11 @@ def apply(devs):
         elif key == "__z0_only":
             d["met"].pop("ustar", None)
             d["met"]["z0"] = val
+        elif key == "__omit":
+            for k_ in val:
+                d["met"].pop(k_, None)
+        elif key == "__square":
+            d["domain"]["nx"], d["domain"]["ny"], d["domain"]["modes"] = val, val, [val, val]
         elif key == "__no_origin":
             d["domain"].pop("ref_lat")
             d["domain"].pop("ref_lon")
@@ -152,18 +159,25 @@ def case_config(case):
         os.unlink(path)
     q_user = None
     if user_flux:
-        q_user = core.case_rng(0, "c13-user-flux").random((cfg.domain.ny, cfg.domain.nx))
+        q_user = core.case_rng(0, "c13-user-flux").random((cfg.domain.ny, cfg.domain.nx)) + np.arange(cfg.domain.nx)[None, :]
     runs = 0
     for tw in cfg.towers:
         for i in range(cfg.met.n_timesteps):
             n += 2
             with warnings.catch_warnings():
                 warnings.simplefilter("ignore")
+                before = copy.deepcopy(cfg)
+                q_before = None if q_user is None else q_user.copy()
                 try:
                     r = run_bldfm_single(cfg, tw, met_index=i, surface_flux=q_user)
                     e1 = None
                 except Exception as e:
                     r, e1 = None, type(e).__name__
+                if cfg != before or (q_user is not None and not np.array_equal(q_user, q_before)):
+                    v.append({"sub": "config-modified", "sig": "config-modified", "msg": "tower %s step %d: the run changed the configuration object (or the supplied flux) it was given: %s; %s"
+                              % (tw.name, i, [f for f in ("domain", "towers", "met", "solver", "output", "parallel") if getattr(cfg, f) != getattr(before, f)], lab)})
+                    cfg = copy.deepcopy(before)
+                    tw = [t for t in cfg.towers if t.name == tw.name][0]
                 try:
                     (g, c, f), m = manual(cfg, tw, i, q_user)
                     e2 = None
@@ -195,7 +209,7 @@ def case_config(case):
     return {"v": v[:5], "nt": runs if runs else 1, "key": core.canon(case), "n": n, "obs": {"tower_step_runs_compared": runs, "towers": len(cfg.towers), "steps": cfg.met.n_timesteps}}
 
 
-MUT_OPS = ["run0", "run1", "set-wind_dir", "set-ustar", "set-halo", "edit-returned-params", "move-tower"]
+MUT_OPS = ["run0", "run1", "set-wind_dir", "set-ustar", "set-halo", "edit-returned-params", "move-tower", "rescale-domain"]
 
 
 def case_mutation_history(case):
@@ -217,6 +231,7 @@ def case_mutation_history(case):
     met = copy.deepcopy(raw["met"])  # the harness' own record of the forcing
     halo = raw["domain"].get("halo")
     tower_xy = (cfg.towers[0].x, cfg.towers[0].y)
+    dom_xy = (80.0, 90.0)
     last = None
     v = []
     n = 0
@@ -233,6 +248,9 @@ def case_mutation_history(case):
         elif op == "set-halo":
             halo = 13.0 if halo != 13.0 else 20.0
             cfg.domain.halo = halo
+        elif op == "rescale-domain":
+            dom_xy = (dom_xy[0] * 1.5, dom_xy[1] * 1.5)
+            cfg.domain.xmax, cfg.domain.ymax = dom_xy
         elif op == "move-tower":
             tower_xy = (tower_xy[0] + 10.0, tower_xy[1] + 5.0)
             cfg.towers[0].x, cfg.towers[0].y = tower_xy
@@ -249,8 +267,8 @@ def case_mutation_history(case):
                 r = run_bldfm_single(cfg, cfg.towers[0], met_index=i)
                 u, w = compute_wind_fields(exp["wind_speed"], exp["wind_dir"])
                 z, prof = vertical_profiles(cfg.domain.nz, cfg.towers[0].z_m, (u, w), ustar=exp["ustar"], mol=exp["mol"], closure="MOST")
-                q = ideal_source((8, 6), (80.0, 90.0), src_loc=None, shape="diamond")
-                g, c, f = S(q, z, prof, (80.0, 90.0), cfg.domain.nz, modes=(8, 6), meas_pt=tower_xy, footprint=True, halo=halo, precision="single")
+                q = ideal_source((8, 6), dom_xy, src_loc=None, shape="diamond")
+                g, c, f = S(q, z, prof, dom_xy, cfg.domain.nz, modes=(8, 6), meas_pt=tower_xy, footprint=True, halo=halo, precision="single")
             diffs = []
             if not (np.array_equal(r["conc"], c) and np.array_equal(r["flx"], f)):
                 diffs.append("fields")
@@ -274,6 +292,8 @@ HIST_OPS = [
     {"devs": [["solver", "footprint", True], ["domain", "output_levels", [3, 1]]]},
     {"devs": [["towers", None, TWO], ["met", "wind_dir", [10.0, 200.0, 300.0]]], "tower": 1, "step": 2},
     {"devs": [["met", "z0", 0.1], ["solver", "closure", "MOSTM"]]},
+    {"devs": [["met", "__omit", ["mol", "wind_speed", "wind_dir"]]]},
+    {"devs": [["met", "mol", 120.0], ["met", "wind_speed", 7.5]]},
 ]
 
 
@@ -295,7 +315,7 @@ def run(ctx):
     dmax = 2 if ctx.tier == "quick" else 3
     cs = [{"devs": [list(x) for x in c]} for c in combos(dmax)]
     ctx.rule = (
-        "every configuration within <= %d axis deviations of the default over 17 axes (%d configurations), x every tower x every time index; non-trivial = (configuration, tower, step) triples where both sides returned and were compared; "
+        "every configuration within <= %d axis deviations of the default over 19 axes (%d configurations), x every tower x every time index; non-trivial = (configuration, tower, step) triples where both sides returned and were compared; "
         "evaluations counts executions of either side" % (dmax, len(cs))
     )
     res = ctx.run_cases(case_config, cs, sub="config")
